@@ -22,6 +22,9 @@ pub fn instances(tier: &str) -> Vec<String> {
 pub fn configure(inst: &str, cfg: &mut Config) {
     // the square-root stub leaves the sign open on the branch cut (f64: decided by the sign of a zero)
     if inst.starts_with("deg2") || inst.starts_with("deg3") { cfg.stubs = vec!["csqrt".into(), "ccbrt".into(), "csqrt_signed_zero".into()]; }
+    // (under the 16-way fan-out one of its hypotheses needs more than the 10 s quick cap; without this the instance is
+    //  retried sequentially, which costs four minutes)
+    if inst == "deg3_cmplx_pure" { cfg.prove_timeout_ms = cfg.prove_timeout_ms.max(40000); }
     if inst.contains("deflation") { cfg.stubs = vec!["laguer".into()]; }
     if inst.starts_with("laguer_pass") { cfg.stubs = vec!["csqrt".into()]; cfg.decide_timeout_ms = cfg.decide_timeout_ms.min(1500); }
 }
